@@ -550,6 +550,10 @@ def fact_recvs : List String := [
     "standardRenderer.listen|r.ticker.C|select|go=false",
     "suspendProcess|v1|bare|go=false"]
 
+def fact_regexps : List String := [
+    "mouseSGRRegex|`(\\d+);(\\d+);(\\d+)([Mm])`",
+    "unknownCSIRe|`^\\x1b\\[[\\x30-\\x3f]*[\\x20-\\x2f]*[\\x40-\\x7e]`"]
+
 def fact_sendcalls : List String := [
     "Program.Printf|printLineMessage{ messageBody: fmt.Sprintf(a1, a2...), }|go=false",
     "Program.Println|printLineMessage{ messageBody: fmt.Sprint(a1...), }|go=false",
